@@ -111,6 +111,15 @@ impl Property for C04 {
                 a
             })
             .collect();
+        // now and then one argument just under the largest size the kernel takes as a single
+        // string (131072 bytes with its terminator): it fits, so it must be delivered
+        let mut args = args;
+        let near_strlen = !tight && !args.is_empty() && rng.chance(1, 60);
+        if near_strlen {
+            let at = rng.usize_below(args.len());
+            let short = *rng.pick(&[1usize, 1, 2, 3, 5, 8, 9, 12, 200]);
+            args[at] = vec![b'L'; 131072 - short];
+        }
         // layout over lines
         let mut input = Vec::new();
         match delim {
@@ -245,7 +254,15 @@ impl Property for C04 {
             None => vec![b' ', b'\n', b'\t'],
         };
         sc.read_plan = gen_any_plan(rng, &sc.input.0.clone(), cfg.delim.is_none(), &sep);
+        if sc.input.0.len() > 60_000 {
+            // the long-argument family is about sizes, not about chunking
+            sc.read_plan.truncate(400);
+        }
         add_neutral_xargs_opts(rng, &mut sc.opts);
+        if tight {
+            // -t prints every command with its (padded, 120 KiB) environment: seconds per run
+            sc.opts.retain(|o| !matches!(o, Opt::Verbose));
+        }
         sc
     }
 
